@@ -570,4 +570,44 @@ theorem store_pack (p : W2) : storeU64 (pack p) = storeU32 p.1 ++ storeU32 p.2 :
     byte_hi p 56 24 (by decide) (by decide) rfl]
   rfl
 
+theorem eight_of_le (l : List UInt8) (h : 8 ≤ l.length) :
+    ∃ x0 x1 x2 x3 y0 y1 y2 y3 t, l = x0 :: x1 :: x2 :: x3 :: y0 :: y1 :: y2 :: y3 :: t := by
+  rcases l with _ | ⟨x0, _ | ⟨x1, _ | ⟨x2, _ | ⟨x3, _ | ⟨y0, _ | ⟨y1, _ | ⟨y2, _ | ⟨y3, t⟩⟩⟩⟩⟩⟩⟩⟩ <;>
+    simp at h
+  exact ⟨x0, x1, x2, x3, y0, y1, y2, y3, t, rfl⟩
+
+theorem toPairs_eq (b : List UInt8) (hb : b.length = 192) : toPairs b = (Bee2V.C03.toWords b).map split := by
+  apply Vector.ext
+  intro k hk
+  simp only [toPairs, Bee2V.C03.toWords, Vector.getElem_map, Vector.getElem_ofFn]
+  obtain ⟨x0, x1, x2, x3, y0, y1, y2, y3, t, e⟩ := eight_of_le (b.drop (8 * k)) (by rw [List.length_drop]; omega)
+  have e2 : b.drop (8 * k + 4) = (b.drop (8 * k)).drop 4 := by rw [List.drop_drop]
+  rw [e2, e]
+  show (loadU32 [x0, x1, x2, x3], loadU32 [y0, y1, y2, y3]) = split (Bee2V.C03.loadU64 [x0, x1, x2, x3, y0, y1, y2, y3])
+  rw [split, load8_lo, load8_hi]
+
+theorem ofPairs_eq (q : State32) : ofPairs q = Bee2V.C03.ofWords (q.map pack) := by
+  simp only [ofPairs, Bee2V.C03.ofWords, Vector.toList_map, List.flatMap_map, store_pack]
+
+/-- **f32 = f64 on octets**: `bashF` of bash_f32.c (BASH_32 build, little-endian host) returns exactly what
+`bashF` of bash_f64.c returns, for every 192-octet block; with `bashF0_spec` both are bash-f of STB 34.101.77. -/
+theorem bashF32_eq_bashF (b : List UInt8) (hb : b.length = 192) : bashF32 b = Bee2V.C03.bashF b := by
+  unfold bashF32 Bee2V.C03.bashF
+  rw [ofPairs_eq, toPairs_eq b hb, Vector.map_map, Vector.map_map]
+  exact congrArg Bee2V.C03.ofWords (bashF0_32_eq (Bee2V.C03.toWords b))
+
+/-- non-vacuity of `bashF32_eq_bashF`: 192-octet blocks exist, and on the zero block the BASH_32 model
+returns the known first octets of bash-f(0) (kernel evaluation of the f32 model) -/
+example : ∃ b : List UInt8, b.length = 192 ∧ (bashF32 b).take 4 = [0xfc, 0xc7, 0x71, 0x8c] :=
+  ⟨List.replicate 192 0, rfl, by decide +kernel⟩
+
+/-- with `bashF0_spec`: the BASH_32 code computes bash-f of STB 34.101.77 on every 1536-bit state -/
+theorem bashF0_32_spec (s : Vector UInt64 24) (x : Fin 24) :
+    (deinterAll (bashF0_32 (interAll s)))[x].toBitVec
+      = Bee2V.C03.Spec.bashF (fun y => s[y].toBitVec) x := by
+  rw [bashF0_32_eq]; exact Bee2V.C03.bashF0_spec s x
+
+/-- non-vacuity of `bashF0_32_eq`: the rounds are not the identity on the interleaved zero state -/
+example : bashF0_32 (interAll (Vector.replicate 24 0)) ≠ interAll (Vector.replicate 24 0) := by decide +kernel
+
 end Bee2V.C03.F32
